@@ -324,6 +324,12 @@ func runServerRT(t *testing.T, seed int64, log *traceLog) {
 						for k, v := range o {
 							m[k] = v
 						}
+						if m["k"] == "toclient" && m["to"] != c {
+							bad(fmt.Sprintf("a datagram for the relayed address of %s was delivered to %v", c, m["to"]), "C04", "C02")
+						}
+						if m["k"] == "topeer" && m["from"] != c {
+							bad(fmt.Sprintf("data submitted by %s left from the relayed address of %v", c, m["from"]), "C04", "C01")
+						}
 						if m["k"] == "toclient" {
 							if m["peer"] == nil {
 								m["peer"] = []any{"?", 0}
@@ -366,6 +372,7 @@ func runServerRT(t *testing.T, seed int64, log *traceLog) {
 	time.Sleep(30 * time.Millisecond)
 	close(stop)
 	pump.Wait()
+	hammerWhy := hammer(w, seed)
 	names := append([]string{}, meta.Clients...)
 	sort.Strings(names)
 	for _, c := range names {
@@ -373,11 +380,94 @@ func runServerRT(t *testing.T, seed int64, log *traceLog) {
 		log.lines = append(log.lines, logs[c].lines...)
 		log.mu.Unlock()
 	}
+	if hammerWhy != "" {
+		log.add(map[string]any{"e": "Bad", "why": hammerWhy, "owners": []string{"C09", "C18"}})
+	}
 	rt.mu.Lock()
 	for _, s := range rt.stray {
 		log.add(map[string]any{"e": "Bad", "why": s, "owners": []string{"C04", "C19", "C05"}})
 	}
 	rt.mu.Unlock()
+}
+
+// hammer: eight more parties on the stream listener send well-formed requests back to back without waiting
+// for the answers -- six refresh their allocation, two allocate and release in turn -- so that lookups and
+// table changes of one allocation manager overlap all the time.  Every request has exactly one answer; the
+// oracle is only that all of them arrive (nothing may wedge the server).  Returns "" or what went wrong.
+func hammer(w *World, seed int64) string {
+	const parties, burst = 8, 300
+	type party struct {
+		st   *MemStream
+		want int
+		got  chan int
+	}
+	ps := make([]*party, parties)
+	for i := range ps {
+		st, err := w.Net.DialTCP(&net.TCPAddr{IP: net.IPv4(10, 0, 0, 13).To4(), Port: 41000 + i}, &net.TCPAddr{IP: w.listenAddr["s1"].IP, Port: w.listenAddr["s1"].Port})
+		if err != nil {
+			return "hammer: " + err.Error()
+		}
+		defer st.Close() //nolint:errcheck
+		ps[i] = &party{st: st, got: make(chan int, 1)}
+	}
+	id := func(i, k int) (t [stun.TransactionIDSize]byte) {
+		h := sha256.Sum256([]byte(fmt.Sprintf("hammer/%d/%d/%d", seed, i, k)))
+		copy(t[:], h[:])
+
+		return t
+	}
+	for i, p := range ps {
+		i, p := i, p
+		var reqs [][]byte
+		alloc := func(k int) []byte {
+			return w.authed("u1", id(i, k), stun.MethodAllocate, proto.RequestedTransport{Protocol: proto.ProtoUDP})
+		}
+		reqs = append(reqs, alloc(0))
+		for k := 1; k <= burst; k++ {
+			switch {
+			case i < 6:
+				reqs = append(reqs, w.authed("u1", id(i, k), stun.MethodRefresh))
+			case k%2 == 1:
+				reqs = append(reqs, w.authed("u1", id(i, k), stun.MethodRefresh, proto.Lifetime{}))
+			default:
+				reqs = append(reqs, alloc(k))
+			}
+		}
+		p.want = len(reqs)
+		go func() { // answers: one STUN message per request
+			n, rest := 0, []byte{}
+			buf := make([]byte, 65536)
+			for n < p.want {
+				_ = p.st.SetReadDeadline(time.Now().Add(5 * time.Second))
+				k, err := p.st.Read(buf)
+				if err != nil {
+					break
+				}
+				rest = append(rest, buf[:k]...)
+				for len(rest) >= 20 {
+					l := 20 + int(rest[2])<<8 + int(rest[3])
+					if len(rest) < l {
+						break
+					}
+					rest = rest[l:]
+					n++
+				}
+			}
+			p.got <- n
+		}()
+		go func() {
+			for _, r := range reqs {
+				_, _ = p.st.Write(r)
+			}
+		}()
+	}
+	for i, p := range ps {
+		if n := <-p.got; n != p.want {
+			return fmt.Sprintf("hammer: party %d got %d answers to %d pipelined requests (8 parties on the stream listener at once): the server is wedged", i, n, p.want)
+		}
+	}
+
+	return ""
 }
 
 // decodeAtClientRT is decodeAtClient with the payload identified through the router (many operations are in flight).
